@@ -9,7 +9,7 @@ META = {
     "engine": "afc",
     "technique": "TLA+ spec ArcStr (one action per atomic access of ArcStr::clone/drop: fetch_add, fetch_sub, fence, dealloc) model-checked with TLC; edge-covering schedules of its state graph replayed on real heap-backed aranya_policy_text::Text under the yield-point scheduler with a tracking allocator as memory-safety oracle (spec->impl conformance)",
     "text": "TLC checks the reference-counted string for every interleaving of threads that clone, read and drop handles until they own none - owner threads start with one handle, borrower threads clone and read through a shared reference to an owner's handle (so the same, possibly unique, handle is cloned concurrently): no access after the dealloc, at most one dealloc, the count equals the number of live handles, no dealloc while a handle is alive, exactly one dealloc at the end; the spec mutant 'free when fetch_sub returned 2' must be rejected. Every transition of the state graph is executed on real Text values sharing one heap allocation: yield points sit before fetch_add, fetch_sub, the fence and the dealloc; reads go through as_str(). The harness allocator poisons and quarantines the freed block. VIOLATION on: a yield point or read touching the freed block / text that does not read back, a second free, the block still allocated after every handle is dropped.",
-    "note": "Bounds: quick 3 owner threads x (<=1 clone, <=1 read), 1 owner + 2 borrowers x (<=1 clone, <=1 read), and 2 threads, all exhaustive; thorough 3 threads x <=2 clones in TLC, schedules from 3 x (1,1). Memory orderings (Relaxed/Release/Acquire fence) are outside the model: sequentially consistent interleavings only (DESIGN §9). The valgrind run planned in DESIGN is not done (the scheduler switches stacks in user space). Trusts the allocator's quarantine.",
+    "note": "Bounds: quick 3 owner threads x (<=1 clone, <=1 read), 1 owner + 2 borrowers x (<=1 clone, <=1 read), and 2 threads, all exhaustive; thorough 3 threads x <=2 clones in TLC, schedules from 3 x (1,1). Additionally free-running races (2 and 3 real unscheduled threads, each clone/read/drop-clone/drop-own on one shared allocation, spin barrier with jitter, 3 s each quick / 15 s thorough) with the allocator and read oracle: a stress complement that reaches interleavings inside a split read-modify-write, not exhaustive. Memory orderings (Relaxed/Release/Acquire fence) are outside the model: sequentially consistent interleavings only (DESIGN §9). The valgrind run planned in DESIGN is not done (the scheduler switches stacks in user space). Trusts the allocator's quarantine.",
 }
 
 ACTIONS = ["op", "inc", "rd", "dec", "fence", "free"]
@@ -48,6 +48,12 @@ def run(ctx):
         graphs[cfg] = {"constants": c, "states": info["states"], "transitions": info["transitions"],
                        "cover_paths": info["cover_paths"], "replayed": len(beh),
                        "steps_executed": sum(x.get("steps", 0) for x in res)}
+    # free-running races: real unscheduled threads, the hardware interleaves single accesses
+    ms = 15000 if ctx.thorough else 3000
+    races = [{"race": "mix", "threads": k, "rounds": 2000000 if ctx.thorough else 400000, "ms": ms} for k in (2, 3)]
+    rres = ctx.run_engine(vh, "arcstr", races, tag="arcstr-race")
+    ctx.absorb(rres)
+    ctx.cov["free_running_races"] = {"mix x%d" % r["_in"]["threads"]: r.get("steps", 0) for r in rres if r.get("_in")}
     if ctx.nviol:
         # self-tests use the recorded results of this run; with violations present they prove nothing
         ctx.cov["selftests"] = ["skipped: the run found violations"]
@@ -56,6 +62,10 @@ def run(ctx):
     st = ctx.run_engine(vh, "arcstr", allbeh[:50], opts={"selftest": "forget"}, tag="selftest-forget")
     if not any(x.get("key") == "C33:leak" for x in st):
         raise verif.ToolError("binding self-test failed: a forgotten handle (leak) was not reported")
+    st = ctx.run_engine(vh, "arcstr", [{"race": "mix", "threads": 2, "rounds": 20, "ms": 2000}],
+                        opts={"selftest": "forget"}, tag="selftest-race-forget")
+    if not any(x.get("key") == "C33:leak" for x in st):
+        raise verif.ToolError("binding self-test failed: a forgotten handle in the free-running race was not reported")
     st = ctx.run_engine(vh, "arcstr", allbeh[:50], opts={"selftest": "extradrop"}, tag="selftest-extradrop")
     if not any(x.get("key") in ("C33:double-free", "C33:use-after-free") for x in st):
         raise verif.ToolError("binding self-test failed: a handle dropped twice was not reported")
